@@ -75,7 +75,7 @@ typedef struct Node {
 	int64_t efail_at;            /* draw index that fails (-1 none) */
 	int efail_rest;              /* 1: all later draws fail too */
 	int efail_errno;             /* errno the failing call reports (0 = leave errno untouched) */
-	int64_t eburst_at; int eburst_k; uint8_t eburst_val;
+	int64_t eburst_at; int eburst_k; int eburst_val;   /* 0..255: that byte; 256..: boundary patterns (wraps.c) */
 	int efail_fired, eburst_fired;
 	uint64_t efail_next_ok_step;          /* sim step of the first successful draw after the failed one (0: none) */
 	int efail_next_seen, efail_retried;   /* the draw right after the first failed one asked for the same number of bytes: a retry */
